@@ -197,6 +197,8 @@ pub struct Local {
     pub engines: BTreeMap<String, EngineStats>,
     pub viols: Vec<Viol>,
     pub known_panics: u64,
+    /// free-form additive counters (aggregated across workers)
+    pub sums: BTreeMap<String, u64>,
 }
 
 pub const MAX_VIOLS_PER_THREAD: usize = 64;
@@ -263,6 +265,9 @@ impl Local {
             s.exhaustive |= o.exhaustive;
         }
         self.viols.extend(other.viols);
+        for (k, v) in other.sums {
+            *self.sums.entry(k).or_insert(0) += v;
+        }
         self.known_panics += other.known_panics;
     }
 }
